@@ -851,6 +851,19 @@ func allocCaptured(a *ssa.Alloc) bool {
 	for _, r := range *a.Referrers() {
 		switch r := r.(type) {
 		case *ssa.MakeClosure:
+			// a closure that is only ever deferred runs at function exit: ordinary
+			// calls in between cannot write the variable through it
+			onlyDeferred := true
+			for _, u := range *r.Referrers() {
+				if _, isDefer := u.(*ssa.Defer); !isDefer {
+					if _, isDbg := u.(*ssa.DebugRef); !isDbg {
+						onlyDeferred = false
+					}
+				}
+			}
+			if onlyDeferred {
+				continue
+			}
 			return true
 		case *ssa.Store:
 			if r.Val == a {
